@@ -4,7 +4,8 @@ set -e
 PROP=$1; shift
 WT=/tmp/verif-mut-$$
 git -C /repo worktree add --detach $WT HEAD >/dev/null 2>&1
-trap "git -C /repo worktree remove --force $WT >/dev/null 2>&1; rm -rf /verif/.cache/obj/*/$(echo $WT | tr / _)* 2>/dev/null" EXIT
+KEY=$(python3 -c "import hashlib,sys; print(hashlib.sha1(sys.argv[1].encode()).hexdigest()[:8])" $WT)
+trap "git -C /repo worktree remove --force $WT >/dev/null 2>&1; rm -rf /verif/.cache/obj_scratch/$KEY /verif/.cache/*/harness_*_$KEY 2>/dev/null" EXIT
 if [ "$1" = "-e" ]; then sed -i "$2" $WT/$3; git -C $WT diff --stat | tail -1; else git -C $WT apply "$1"; fi
 cd /verif && VERIF_REPO=$WT ./check $PROP --tier ${TIER:-quick} 2>&1 | tail -${TAIL:-8}
 echo "exit=${PIPESTATUS[0]}"
